@@ -8,6 +8,7 @@ R01.part   exact partition of the 2^31 magnitudes over the exits of imath_float_
            zero exit only from [0, 0x33000000], infinity exit only from [0x477ff000, 0x7f800000],
            NaN-shaped exit exactly from [0x7f800001, 0x7fffffff]
 R01.sign   bit 15 of every exit is input bit 31 (D-bits; the ++ret of the subnormal path cannot carry)
+R01.f16c   hardware back-end: vcvtps2ph with rounding immediate nearest-even (MXCSR not consulted) on the unmodified argument
 R01.nan    NaN result = sign | 0x7c00 | bits[22:13] | (bits[22:13] == 0)
 R01.rne    normal range: (u + 0xfff + bit13(u)) >> 13 rounds to nearest, ties to even (threshold
            reasoning on the low 13-bit field), after the exact rebias u = ui - (112 << 23);
@@ -563,6 +564,13 @@ def main(rep, ws, tier):
             rep.ob('half::' + what, 'R01.fwd', HOLDS if ok else VIOLATED, '' if ok else 'is %s' % T.show(o, 3), 'src/Imath/half.h (%s)' % what, nontrivial=False)
         except vg.Unsupported as e:
             rep.ob('half::' + what, 'R01.fwd', UNDECIDED, str(e))
+    # the hardware back-end: the conversion instruction itself is IEEE round-to-nearest-even only with the right immediate
+    if not getattr(rep, '_c01_from_c02', False):
+        try:
+            from . import c02
+            c02.check_f16c(rep, c02.f16c_graphs(ws), 'src/Imath/half.h', rule='R01.f16c')
+        except (build.BuildError, vg.Unsupported) as e:
+            rep.ob('vcvtps2ph immediate', 'R01.f16c', UNDECIDED, str(e)[:300])
     rep.floor('table entries compared', rep.extra.get('table_entries_checked', 0), 65536)
     rep.assumptions += ['configuration of the pinned build: IMATH_HALF_USE_LOOKUP_TABLE on, no F16C', 'binary32/binary16 format parameters are the reference (p = 24/11, emax = 127/15)']
-    rep.undecided_clauses += ['F16C and no-table back-ends (see C02)', 'half->float->half identity is derived from the two decided directions, not extracted as one graph']
+    rep.undecided_clauses += ['no-table back-end and the agreement of the back-ends (see C02); for F16C only the rounding immediate and the operands are decided', 'half->float->half identity is derived from the two decided directions, not extracted as one graph']
